@@ -4,7 +4,7 @@
    query ::= (get-field #name) | (get-function #name) | (get-list ty) | fields | functions
            | lists | counts | (parse-ident #text) | (scheme-eq) *)
 From Coq Require Import List ZArith NArith Bool String.
-From WF Require Import Base.Bytes Base.Sexp Lang.Types Sem.Registry Spec.C16 Run.Lang.
+From WF Require Import Base.Bytes Base.Sexp Lang.Types Sem.Registry Spec.C16 Sem.RegistryFast Run.Lang.
 Import ListNotations.
 Open Scope string_scope.
 Open Scope list_scope.
@@ -174,10 +174,12 @@ Definition run_C16 (spec : bool) (head : sexp) (args : list sexp) : option sexp 
         | Some ops' =>
             let answers :=
               if spec
-              then let st := spec_run_ops ops' in
+              (* the linear-cost runners; equal to spec_run_ops / run_ops by
+                 C16_fast_spec_runner / C16_fast_model_runner *)
+              then let st := spec_run_ops_fast ops' in
                    option_map (fun a => (map enc_response (fst st), a))
                               (option_map_all (spec_answer ops' (snd st)) queries)
-              else let st := run_ops ops' in
+              else let st := run_ops_fast ops' in
                    option_map (fun a => (map enc_response (fst st), a))
                               (option_map_all (model_answer ops' (snd st)) queries) in
             match answers with
